@@ -423,6 +423,116 @@ func genLoad() {
 		l.bool("edgesAddedInGoroutines", inGo)
 		l.bool("edgesAddedAfterWait", afterWait)
 	}
+	genHandDecoded(l, p)
 	l.write()
+}
+
+// genHandDecoded: the mappings of taskfile/ast that are decoded by walking the YAML node
+// by hand (a loop stepping by two over node.Content) bypass yaml.v3's duplicate-key check;
+// for each such function: does the loop refuse a key used twice (an
+// `if err := duplicateKeyError(node, i); err != nil { return err }` before the first Set)?
+// And the skeleton of duplicateKeyError itself (locals and parameters as placeholders).
+func genHandDecoded(l *leanFile, p *pkgFiles) {
+	var rows [][2]string
+	for _, fd := range p.allFuncs() {
+		if fd.Body == nil || funcName(fd) == "duplicateKeyError" {
+			continue
+		}
+		ast.Inspect(fd.Body, func(n ast.Node) bool {
+			fs, ok := n.(*ast.ForStmt)
+			if !ok || fs.Post == nil {
+				return true
+			}
+			post, ok := fs.Post.(*ast.AssignStmt)
+			if !ok || post.Tok != token.ADD_ASSIGN || len(post.Lhs) != 1 || len(post.Rhs) != 1 || src(post.Rhs[0]) != "2" {
+				return true
+			}
+			iv := src(post.Lhs[0])
+			node := ""
+			ast.Inspect(fs.Body, func(m ast.Node) bool {
+				if ix, ok := m.(*ast.IndexExpr); ok && src(ix.Index) == iv && strings.HasSuffix(src(ix.X), ".Content") {
+					node = strings.TrimSuffix(src(ix.X), ".Content")
+				}
+				return true
+			})
+			if node == "" {
+				return true
+			}
+			status := "no-dupcheck"
+			checked := false
+			for _, st := range fs.Body.List {
+				if is, ok := st.(*ast.IfStmt); ok && is.Init != nil {
+					if as, ok := is.Init.(*ast.AssignStmt); ok && len(as.Rhs) == 1 && len(as.Lhs) == 1 &&
+						src(as.Rhs[0]) == "duplicateKeyError("+node+", "+iv+")" && src(is.Cond) == src(as.Lhs[0])+" != nil" &&
+						len(is.Body.List) == 1 && src(is.Body.List[0]) == "return "+src(as.Lhs[0]) {
+						checked = true
+					}
+				}
+				hasSet := false
+				ast.Inspect(st, func(m ast.Node) bool {
+					if c, ok := m.(*ast.CallExpr); ok {
+						if se, ok := c.Fun.(*ast.SelectorExpr); ok && se.Sel.Name == "Set" {
+							hasSet = true
+						}
+					}
+					return true
+				})
+				if hasSet {
+					if checked {
+						status = "dupcheck-before-set"
+					}
+					break
+				}
+			}
+			rows = append(rows, [2]string{funcName(fd), status})
+			return true
+		})
+	}
+	sort.Slice(rows, func(i, j int) bool { return rows[i][0] < rows[j][0] })
+	l.pairList("handDecodedMappings", rows)
+	var body []string
+	if fd := p.funcDecl("duplicateKeyError"); fd != nil {
+		locals := localsOf(fd)
+		if fd.Type.Params != nil {
+			for _, f := range fd.Type.Params.List {
+				for _, id := range f.Names {
+					locals[id.Name] = "‹p:" + src(f.Type) + "›"
+				}
+			}
+		}
+		ast.Inspect(fd.Body, func(n ast.Node) bool {
+			switch x := n.(type) {
+			case *ast.AssignStmt:
+				if x.Tok == token.DEFINE {
+					body = append(body, srcL(x, locals))
+				}
+			case *ast.ForStmt:
+				body = append(body, "for "+srcL(x.Init, locals)+"; "+srcL(x.Cond, locals)+"; "+srcL(x.Post, locals))
+				for _, st := range x.Body.List {
+					if as, ok := st.(*ast.AssignStmt); ok && as.Tok == token.DEFINE {
+						body = append(body, srcL(as, locals))
+					}
+					if is, ok := st.(*ast.IfStmt); ok {
+						// operands of && are printed sorted: their order carries no meaning
+						parts := strings.Split(srcL(is.Cond, locals), " && ")
+						sort.Strings(parts)
+						body = append(body, "if "+strings.Join(parts, " && "))
+						for _, rs := range is.Body.List {
+							if r, ok := rs.(*ast.ReturnStmt); ok && len(r.Results) == 1 {
+								if c, ok := r.Results[0].(*ast.CallExpr); ok {
+									body = append(body, "return "+strings.SplitN(srcL(c.Fun, locals), "(", 2)[0]+"(…)")
+								}
+							}
+						}
+					}
+				}
+				return false
+			case *ast.ReturnStmt:
+				body = append(body, srcL(x, locals))
+			}
+			return true
+		})
+	}
+	l.strList("duplicateKeyCheck", body)
 }
 
